@@ -68,7 +68,10 @@ var unexpectedFiles = []string{
 }
 
 func breakSource(t *rapid.T, s string) string {
-	switch rapid.IntRange(0, 4).Draw(t, "breakHow") {
+	switch rapid.IntRange(0, 5).Draw(t, "breakHow") {
+	case 5:
+		// bytes that are no valid UTF-8 (text in GBK) in a comment: go/parser rejects the file for that alone
+		return strings.Replace(s, "\n", " // \xd6\xd0\xce\xc4\n", 1) + "// \xff\n"
 	case 0:
 		return s[:rapid.IntRange(0, len(s)-1).Draw(t, "truncAt")]
 	case 1:
